@@ -60,7 +60,13 @@ static void algebra(Tape &t, Ctx &ctx) {
     std::string variant = "same";
     switch (t.pick({10, 2, 2, 2})) {
     case 1: { b = genU(t, nullptr, a.power); variant = b.base == a.base ? "same" : "other_base"; break; }
-    case 2: { int p2 = a.power == 2 ? 3 : (a.power == 1 ? 2 : 1); b = genU(t, a.base.c_str(), p2); variant = "other_power"; break; }
+    case 2: {
+        // another power: a different magnitude, or the same magnitude with the opposite sign
+        int p2 = t.flip() ? -a.power : (a.power == 2 ? 3 : (a.power == 1 ? 2 : 1));
+        b = genU(t, a.base.c_str(), p2);
+        variant = p2 == -a.power ? "opposite_power" : "other_power";
+        break;
+    }
     case 3: {
         static const char *junk[] = {"foo", "sec", "mVolt", "", "m/s/", "kk", "mm2", "^2", "m^0", "m^", "µV", "msec", "ks^x", "k", "da"};
         b.prefix = "";
